@@ -231,7 +231,9 @@ def apply(spec, state, op):
 
 
 #: operations that take no lock in LRI/LRU (inherited from dict, executed as one C call)
-LOCK_FREE_READS = frozenset(['in', 'len', 'dict', 'keys', 'repr'])
+# ('noop': an operation without result or effect -- a kept iterator, update(self) -- may be placed anywhere, also among
+# the lock-free reads that observe one in-flight operation)
+LOCK_FREE_READS = frozenset(['in', 'len', 'dict', 'keys', 'repr', 'noop'])
 
 #: exception types an operation can raise in *some* sequential state
 POSSIBLE_EXC = {
